@@ -136,5 +136,5 @@ def parts(tier):
              shards={"quick": 16, "thorough": 16}),
         Part("hyp-sequences", "hyp", check=check_seq,
              strategy=lambda t: hyp_case(100 if t == "quick" else 300),
-             examples={"quick": 1600, "thorough": 16000}, shards={"quick": 16, "thorough": 16}),
+             examples={"quick": 4800, "thorough": 32000}, shards={"quick": 16, "thorough": 16}),
     ]
